@@ -191,6 +191,15 @@ static void gen_params(const char *profile, uint64_t base, long idx)
 		if(P.n_lps < P.n_ranks)
 			P.n_ranks = P.n_lps;
 		P.gvt_period = 0;
+		if(prng_below(&rc, 2)) {
+			/* half of the triples also route a few events between all LPs */
+			P.m_budget = 2;
+			P.m_budget_var = 0;
+			P.m_init_ev = 1;
+			P.m_fanout = 3;
+			P.m_dest = 0;
+			P.m_absorbing = 1;
+		}
 	} else if(!strcmp(profile, "c19")) {
 		P.m_topo = 1 + (int64_t)prng_below(&rm, 8);
 		P.m_topo_w = 1 + (int64_t)prng_below(&rm, 5);
